@@ -374,14 +374,14 @@ func genShutCase(rt *rapid.T) shutCase {
 		// handles are closed again before it is due
 		return shutCase{Kind: "openRace", Disk: true, Handles: rapid.IntRange(2, 6).Draw(rt, "openers"), Shutdown: "Close", Seed: int64(rapid.IntRange(1, 1<<30).Draw(rt, "seed"))}
 	}
-	if chance(rt, 12, "closeRace") {
+	if chance(rt, 16, "closeRace") {
 		// handles opened and closed again, round after round, under goroutines calling through them
 		c := shutCase{Kind: "closeRace", Handles: 1, Disk: chance(rt, 30, "disk"), Shutdown: "Close"}
 		n := rapid.IntRange(2, 5).Draw(rt, "nworkers")
 		for i := 0; i < n; i++ {
 			c.Workers = append(c.Workers, pick(rt, closeRaceWorkerKinds, "worker"))
 		}
-		if chance(rt, 35, "viewmix") {
+		if chance(rt, 50, "viewmix") {
 			// design-document calls, view queries and writers together through one handle
 			c.Workers = append([]string{"view", "view", "kv"}, c.Workers[:len(c.Workers)-2]...)
 		}
